@@ -168,6 +168,8 @@ func checkC05(r *Run) {
 	// ---- R-C05-8
 	c.ruleInboundFields(r8)
 	c.ruleGuardTightness(r8, []string{"pktPublish"})
+	c.ruleReaderDiscipline(r8)
+	c.ruleUnpackStringConsumes(r8)
 }
 
 // condField classifies a guard: returns e.g. ("Retain","bool",0), ("QoS","==",1), ("Will","!=nil",0), ("UserName","!=\"\"",0)
@@ -1244,5 +1246,39 @@ func (c *Ctx) ruleInboundFields(rr *RuleRep) {
 		rr.OK("pktPublish.Parse/payload", p.Pos(), "Payload = contents[topicLen + idLen:]")
 	} else {
 		rr.Bad("pktPublish.Parse/payload", p.Pos(), "the delivered payload is not exactly the bytes after the topic and the optional identifier")
+	}
+}
+
+// ruleUnpackStringConsumes: the count unpackString returns is exactly the number of bytes it consumed
+// (length prefix + encoded length), the same value that bounds the slice it decoded.
+func (c *Ctx) ruleUnpackStringConsumes(rr *RuleRep) {
+	us := c.Func("unpackString")
+	if us == nil {
+		rr.Lost("unpackString", "not found")
+		return
+	}
+	b := c.newBounds()
+	var hi *lin
+	eachInstr(us, func(in ssa.Instruction) {
+		if sl, ok := in.(*ssa.Slice); ok && sl.X == ssa.Value(us.Params[0]) && sl.High != nil {
+			l := b.norm(sl.High)
+			hi = &l
+		}
+	})
+	if hi == nil {
+		rr.Undecided("unpackString/consumed", us.Pos(), "cannot find the slice of the input that is decoded")
+		return
+	}
+	for _, ret := range returnsOf(us) {
+		if !isNilConst(c.Resolve(c.errResult(ret))) {
+			continue
+		}
+		got := b.norm(ret.Results[0])
+		d := got.add(*hi, -1)
+		if len(d.K) == 0 && d.C == 0 {
+			rr.OK("unpackString/consumed", ret.Pos(), "returned count equals the end offset of the decoded field (%s)", got.String())
+		} else {
+			rr.Bad("unpackString/consumed", ret.Pos(), "unpackString returns %s as the number of bytes consumed, but the field it decoded ends at offset %s: for some inputs (e.g. multi-byte UTF-8) the fields that follow — packet identifier, payload — are read from the wrong offset", got.String(), hi.String())
+		}
 	}
 }
